@@ -1,6 +1,8 @@
 """ct — compute-table protocol rules that are visible in the shape of ct_styles.cc, node_headers
 and the entry-type classes (DESIGN §2.3).  Facts-based part: recycle gate, dead-before-return,
 node-item walkers (cache-count symmetry).  Schema/use agreement lives in the C++ `ct` engine."""
+import re
+
 from cfg import Graph, qmatch, show_path
 from core import Finding, RuleResult
 from frontend import AnalysisBroken, where, base_name
@@ -599,4 +601,77 @@ def rule_schema(P):
     return R
 
 
-RULES = [rule_recycle_gate, rule_node_items, rule_dead_before_return, rule_identity, rule_schema]
+def rule_key_level_flag(P):
+    """a constructor flag that decides whether the level is part of the compute-table key (setFixed('I', X, Y) vs setFixed(X, Y)) says whether the
+    operand forests skip levels in a way that makes the result depend on the level: it is a function of the key forests X, Y and of nothing else"""
+    R = RuleResult("ct.key-level-flag", "in every operation constructor, the flag selecting between a compute-table key with the level (setFixed('I', X, Y)) and without it is computed from reduction-rule queries on the key forests X, Y only")
+    canon = lambda t: re.sub(r"F$", "", re.sub(r"\s+", "", t.replace("this->", "")))
+    seen = set()
+    for f in sorted(P.fns.values(), key=lambda f: (f["file"], f["line"], f["inst"])):
+        if not f.get("ctor") or not f.get("cfg") or not f["file"].startswith("operations/") or (f["file"], f["line"]) in seen:
+            continue
+        seen.add((f["file"], f["line"]))
+        g = Graph(f)
+        fixed = [k for k in g.nodes if k.kind == "call" and qmatch(k.ev["q"], "ct_entry_type::setFixed")]
+        appended = [k for k in g.nodes if k.kind == "call" and qmatch(k.ev["q"], "ct_entry_type::appendFixed")]
+        if not fixed and not appended:
+            continue
+        stores = {}
+        for k in g.nodes:
+            if k.kind == "store":
+                stores.setdefault(k.ev["member"].split("::")[-1], []).append(k)
+        for b in g.nodes:
+            if b.kind != "branch" or not b.cond or len(b.succ) != 2:
+                continue
+            flag = re.sub(r"\s+", "", b.cond["text"].replace("this->", "")).lstrip("!")
+            if flag not in stores:
+                continue
+            arms = []
+            for s_, i in b.succ:
+                r_ = g.reach([s_])
+                o_ = g.reach([x for x, j in b.succ if j != i])
+                arms.append([k for k in fixed if k.id in r_ and k.id not in o_])
+            with_level = [a and all(_nzq(k.ev["args"][0]) == "'I'" for k in a) for a in arms]
+            without = [a and all(_nzq(k.ev["args"][0]) != "'I'" for k in a) for a in arms]
+            keyf = {canon(a) for arm in arms for k in arm for a in k.ev["args"] if _nzq(a) != "'I'"}
+            if not ((with_level[0] and without[1]) or (with_level[1] and without[0])):
+                # the incremental form: `if (flag) ct->appendFixed('I');` followed by appendFixed(forest) calls
+                arms2 = []
+                for s_, i in b.succ:
+                    r_ = g.reach([s_])
+                    o_ = g.reach([x for x, j in b.succ if j != i])
+                    arms2.append([k for k in appended if k.id in r_ and k.id not in o_])
+                lv = [a and all(_nzq(k.ev["args"][0]) == "'I'" for k in a) for a in arms2]
+                if not ((lv[0] and not arms2[1]) or (lv[1] and not arms2[0])):
+                    continue
+                keyf = {canon(k.ev["args"][0]) for k in appended if re.fullmatch(r"(this->)?\w+", _nzq(k.ev["args"][0]))}
+            R.functions.add(f["inst"])
+            R.paths += 1
+            queried = set()
+            pending = [st.ev["rhs"] for st in stores[flag]]
+            depth = 0
+            while pending and depth < 4:
+                nxt = []
+                for rhs in pending:
+                    queried |= {canon(m) for m in re.findall(r"([\w>.-]+)->is(?:Fully|Identity|Quasi)Reduced\(\)", rhs.replace("this->", ""))}
+                    for w in re.findall(r"(?<![\w>.])([A-Za-z_]\w*)\b(?!\s*(?:\(|->))", rhs.replace("this->", "")):
+                        if w in stores and w != flag:
+                            nxt += [st.ev["rhs"] for st in stores[w]]
+                pending = nxt
+                depth += 1
+            iid = "%s: `%s` (level in the key) is a function of the key forests %s" % (base_name(f["q"]).replace(M, "")[:60], flag, sorted(keyf))
+            if queried and queried <= keyf:
+                R.ok(iid, where(f, b.line))
+            else:
+                R.fail(iid, where(f, stores[flag][0].line), Finding(R.rule, f["file"], base_name(f["q"]), "flag:" + flag,
+                       "`%s` decides whether the level is part of the compute-table key over %s, but it is computed from %s: whether the result depends on the level is a property of the operand forests, not of %s" % (
+                           flag, sorted(keyf), sorted(queried) or "no reduction-rule query", sorted(queried - keyf) or "anything else"), stores[flag][0].line, inst=f["inst"]))
+    R.require_floor(9, "constructors choosing between keys with and without the level")
+    return R
+
+
+def _nzq(t):
+    return re.sub(r"\s+", "", t)
+
+
+RULES = [rule_recycle_gate, rule_node_items, rule_dead_before_return, rule_identity, rule_schema, rule_key_level_flag]
